@@ -636,28 +636,32 @@ VP_BUILTIN(F19_double2string_long_numbers) {
 }
 
 VP_BUILTIN(F20_leading_undefined_location) {
-    osmium::memory::Buffer buf{1024, osmium::memory::Buffer::auto_grow::yes};
-    model::Obj w;
-    w.type = model::WAY;
-    w.id = 1;
-    w.refs = {model::NodeRef{1, model::Loc{}}, model::NodeRef{2, model::Loc{10, 10}}, model::NodeRef{3, model::Loc{20, 20}}, model::NodeRef{4, model::Loc{30, 5}}, model::NodeRef{5, model::Loc{10, 10}}, model::NodeRef{6, model::Loc{}}};
-    model::add_to_buffer(buf, w);
     osmium::geom::WKTFactory<> f;
-    for (auto dir : {osmium::geom::direction::forward, osmium::geom::direction::backward}) {
+    for (int which = 0; which < 2; ++which) {
+        osmium::memory::Buffer buf{1024, osmium::memory::Buffer::auto_grow::yes};
+        model::Obj w;
+        w.type = model::WAY;
+        w.id = 1;
+        w.refs = {model::NodeRef{2, model::Loc{10, 10}}, model::NodeRef{3, model::Loc{20, 20}}, model::NodeRef{4, model::Loc{30, 5}}, model::NodeRef{5, model::Loc{10, 10}}};
+        // undefined location first (forward) resp. last (backward): the first one the factory looks at
+        if (which == 0) w.refs.insert(w.refs.begin(), model::NodeRef{1, model::Loc{}});
+        else w.refs.push_back(model::NodeRef{6, model::Loc{}});
+        model::add_to_buffer(buf, w);
+        auto dir = which == 0 ? osmium::geom::direction::forward : osmium::geom::direction::backward;
         bool threw = false;
         try {
             f.create_linestring(buf.get<osmium::Way>(0), osmium::geom::use_nodes::unique, dir);
         } catch (const osmium::invalid_location&) {
             threw = true;
         }
-        VP_CHECK(threw, "geom-outcome", "linestring over a node list starting/ending with an undefined location was accepted in unique mode");
+        VP_CHECK(threw, "geom-outcome", "linestring over a node list starting with an undefined location was accepted in unique mode (direction " << which << ")");
         threw = false;
         try {
             f.create_polygon(buf.get<osmium::Way>(0), osmium::geom::use_nodes::unique, dir);
         } catch (const osmium::invalid_location&) {
             threw = true;
         }
-        VP_CHECK(threw, "geom-outcome", "polygon over a node list starting/ending with an undefined location was accepted in unique mode");
+        VP_CHECK(threw, "geom-outcome", "polygon over a node list starting with an undefined location was accepted in unique mode (direction " << which << ")");
     }
 }
 
